@@ -297,6 +297,19 @@ Proof.
   intros c. split; [apply rate_le_100|]. split; [apply rate_zero_total|apply rate_spec].
 Qed.
 
+(* End to end, history -> printed numbers: after ANY history of notifications and
+   stats, the numbers behind the cells of (locale, key) are, column by column,
+   the non-ignored findings of each project observer (hist_count with its
+   filter) and, when there are several projects, those of the events at least
+   one project does not ignore - each event once. *)
+From CL Require Import Proofs.SummariesE2E.
+Theorem C10_summaries_end_to_end : forall q confs h loc k, Forall ev_ok h ->
+  map (Summaries.cget k) (columns (fst (lrun q (init_list confs) h)) loc) =
+    map (fun cf => hist_count (c_filter cf) h loc k) confs
+    ++ (if Nat.ltb 1 (length confs)
+        then [hist_count None (filter (ev_reaches confs) h) loc k] else []).
+Proof. exact summaries_cells_history. Qed.
+
 (* two projects: the rows shown, their order, the blanks for zeros, the percent
    of each column; the premise [fits] of C10_summaries_row_reads_back holds of
    both columns (it is about digit counts: a number of more than cell_width
